@@ -266,21 +266,21 @@ def generate(ctx):
         ctx.extra["py_3_threads"] = "all %d maximal schedules" % len(all3)
     else:
         canon = [s for s in all3 if canonical(s)]
-        pick = rng.sample(canon, min(len(canon), 800))
+        pick = rng.sample(canon, min(len(canon), 500))
         ctx.extra["py_3_threads"] = "%d sampled from the %d maximal schedules with threads first appearing in order " \
                                     "0,1,2 (= all %d up to renaming of threads); thorough replays all" % (
                                         len(pick), len(canon), len(all3))
     cases += [dict(impl="py", n=3, sched=s) for s in pick]
     # C implementation: decision lists interpreted online (who gets the lock is the implementation's choice)
     seen = set()
-    for n, cnt in ((1, 4), (2, ctx.n(150, 1500)), (3, ctx.n(250, 4000)), (4, ctx.n(60, 1500))):
+    for n, cnt in ((1, 4), (2, ctx.n(150, 800)), (3, ctx.n(250, 2000)), (4, ctx.n(60, 800))):
         for _ in range(cnt):
             d = tuple(rng.randrange(64) for _ in range(10 * n + 4))
             if (n, d) not in seen:
                 seen.add((n, d))
                 cases.append(dict(impl="c", n=n, decisions=list(d)))
     # the same free-choice driver on the Python implementation with 4 threads (beyond the exhaustive bound)
-    for _ in range(ctx.n(40, 1500)):
+    for _ in range(ctx.n(40, 800)):
         cases.append(dict(impl="py", n=4, decisions=[rng.randrange(64) for _ in range(48)]))
     return cases
 
@@ -557,7 +557,10 @@ def run(ctx):
         "atomicity: each dict operation / lock operation is one atomic step (GIL; tag with built-in or harness hash)",
         "termination of every call additionally needs weak fairness of the thread scheduler and termination of f "
         "(runtime hypotheses; the model proves no-deadlock and a bound on each call's own steps)",
-        "allocation failures (MemoryError paths of ffi_obj.c) are not modelled"]
+        "allocation failures (MemoryError paths of ffi_obj.c) are not modelled",
+        "tags: cache[tag] and the lock stored in it are the only data a call touches (enforced syntactically by the "
+        "translator driver for api.py, by inspection for ffi_obj.c); two-tag runs on the real Python implementation "
+        "are part of the model-free search"]
     cases = generate(ctx)
     # stage 1: everything up to 2 threads and the C runs; stage 2 (3 and 4 threads on the Python implementation)
     # only when stage 1 found no violation (a broken implementation is reported after seconds, not minutes)
@@ -568,11 +571,11 @@ def run(ctx):
         # the implementation's own schedule tree, without the model: all of it for 2 threads, a sample for 3
         explore(ctx, 2, 5000)
     if not ctx.violations:
-        explore(ctx, 3, ctx.n(1500, 40000), rng=ctx.rng)
+        explore(ctx, 3, ctx.n(800, 5000), rng=ctx.rng)
     if not ctx.violations:
         # two tags at once: callers 0,1 on one tag, caller 2 (3) on another; the property per tag
-        explore(ctx, 3, ctx.n(600, 10000), rng=ctx.rng, tags=[0, 0, 1])
-        explore(ctx, 4, ctx.n(300, 10000), rng=ctx.rng, tags=[0, 1, 0, 1])
+        explore(ctx, 3, ctx.n(300, 1500), rng=ctx.rng, tags=[0, 0, 1])
+        explore(ctx, 4, ctx.n(150, 1000), rng=ctx.rng, tags=[0, 1, 0, 1])
     if not ctx.violations:
         evaluate(ctx, rest)
         check_counts(ctx, cases)
@@ -585,9 +588,14 @@ MANIFEST = dict(
          "of threads and every schedule: at most one f runs at a time, at most one completes normally, every normal return "
          "is the cached result which never changes, no f starts once cached, only a call's own f makes it raise and such a "
          "call never writes the cache, no ill-typed state is reached, every unfinished call can step or waits for a lock "
-         "whose holder can step (no deadlock), and each call makes a bounded number of own steps. Tie: regeneration of the "
-         "Python program on every run; every maximal model schedule of <= 3 threads replayed on the real Python "
-         "implementation (count checked in Coq), controlled and random schedules on the C implementation.",
+         "whose holder can step (no deadlock), and each call makes a bounded number of own steps; an FFI object with many "
+         "tags is the product of per-tag states and every theorem holds for every tag (C26_every_tag). Termination of "
+         "every call ('no call blocks forever unless an f does') is proved up to scheduler fairness and termination of f, "
+         "which are not formalised. Tie: regeneration of the Python program on every run (a changed program re-runs the "
+         "proofs); every maximal model schedule of <= 2 threads (quick: a sample of the 3-thread ones, thorough: all 23430) "
+         "replayed on the real Python implementation (count checked in Coq); a model-free exhaustive search of the real "
+         "implementation's own 2-thread schedule tree and sampled 3/4-thread and two-tag trees with the property decided "
+         "on the implementation; controlled and random schedules on the C implementation.",
     note="Trusted: Coq kernel; the flattening driver; hand model c_prog (tied by schedule replay); atomicity of dict and lock "
          "operations under the GIL. Termination of calls needs scheduler fairness and terminating f (hypotheses). "
          "Theorems closed under the global context.",
